@@ -179,7 +179,7 @@ func (p *PluginContainer) cloneAndAppendMiddle(plugins ...Plugin) *PluginContain
 	oldRefreshTree := p.refreshTree
 	p.refreshTree = func() {
 		oldRefreshTree()
-		newPluginContainer.refresh()
+		newPluginContainer.refreshTree()
 	}
 	return newPluginContainer
 }
